@@ -61,7 +61,7 @@ def _possible_variants(b, c, adt):
             if succ == c.bb or succ in dom.get(c.bb, set()):
                 # only when this edge is the only way from the test to the use
                 others = [s for s in si["edges"] if s != succ]
-                if not any(c.bb in b.reachable(o, avoid={succ}) for o in others):
+                if not any(c.bb in b.reachable(o, avoid={d_}) for o in others):
                     possible &= set(labs)
     return possible
 
